@@ -14,7 +14,7 @@ ATOMIC.timer-post  : (open finding) the timer thread's "still running?" test and
 import ast
 
 from sa.model import AnalysisError, walk_shallow, dotted, norm
-from sa.util import cfg_of, guarded_by_edge, shallow_calls, expand_locals, strip_not
+from sa.util import cfg_of, guarded_by_edge, shallow_calls, expand_locals, strip_not, local_defs
 from sa import ident, queues
 from sa.context import callgraph
 
@@ -245,7 +245,17 @@ def check(run, model, tier):
         # the compared sides: tracked record field vs the caller's argument
         l, r = mta.left, mta.comparators[0]
         sides = sorted([norm(l), norm(r)])
-        arg_side = [x for x in (l, r) if any(isinstance(y, ast.Name) and y.id == f.params[1] for y in ast.walk(x))]
+        fdefs_ = local_defs(f.node)
+
+        def from_arg(x, depth=4):
+            """x mentions the caller's argument, or is a local every definition of which is computed from it (`name = e if isinstance(e, str) else e.signal_name`)"""
+            if any(isinstance(y, ast.Name) and y.id == f.params[1] for y in ast.walk(x)):
+                return True
+            if isinstance(x, ast.Name) and depth > 0:
+                ds = fdefs_.get(x.id, [])
+                return bool(ds) and all(isinstance(d_, ast.AST) and from_arg(d_, depth - 1) for d_ in ds)
+            return False
+        arg_side = [x for x in (l, r) if from_arg(x)]
         run.inst('IDENT.cancel-match', f, 'compares the record with the caller\'s argument', len(arg_side) == 1, 'match does not involve the argument: %s' % sides, node=mt.ast, obligation=True)
         # ---- the scan
         heads = [h for h in g.loop_heads() if h.kind in ('for', 'test')]
